@@ -449,7 +449,9 @@ type c40Sys struct {
 
 	mbA, mbB         *FilterMapsMatcherBackend
 	aSynced, bSynced bool
-	pendA, pendB     []c40Point
+	// the sync that opened the running session reported its own cut-off block as indexed (see sync)
+	aOpenCut, bOpenCut bool
+	pendA, pendB       []c40Point
 
 	opsDone []string
 	// injection of a second target update at an intermediate indexing progress (hook point)
@@ -924,51 +926,63 @@ func (s *c40Sys) observe(quiescent bool) {
 	}
 	if !f.hasTempRange {
 		// a pending SyncLogIndex request is served exactly here by the indexer (processSingleEvent)
-		sr := s.sync(s.mbA, quiescent)
-		if s.aSynced {
-			s.validate(s.pendA, sr, "A")
+		// (also while the head is not indexed: sessions START and END at every such point)
+		if !f.indexedRange.headIndexed {
+			s.cfg.r.Outcome("sync:served-while-head-not-indexed")
 		}
-		sr2 := s.sync(s.mbA, quiescent) // session opened and closed on this very state: maximal claim
-		s.validate([]c40Point{pt}, sr2, "A0")
-		s.aSynced = true
+		sr, cut1 := s.sync(s.mbA, quiescent)
+		if s.aSynced {
+			s.validate(s.pendA, sr, "A", s.aOpenCut || cut1)
+		}
+		sr2, cut2 := s.sync(s.mbA, quiescent) // session opened and closed on this very state: maximal claim
+		s.validate([]c40Point{pt}, sr2, "A0", cut1 || cut2)
+		s.aSynced, s.aOpenCut = true, cut2
 		s.pendA = append(s.pendA[:0], pt)
 	}
 	if quiescent {
-		sr := s.sync(s.mbB, true)
+		sr, cut := s.sync(s.mbB, true)
 		if s.bSynced {
-			s.validate(s.pendB, sr, "B")
+			s.validate(s.pendB, sr, "B", s.bOpenCut || cut)
 		}
-		s.bSynced = true
+		s.bSynced, s.bOpenCut = true, cut
 		s.pendB = append(s.pendB[:0], pt)
 	}
 }
 
 // sync performs SyncLogIndex: for real when the indexer is parked (main goroutine), and by serving the
 // request the way processSingleEvent does when running on the indexer goroutine inside the hook.
-func (s *c40Sys) sync(mb *FilterMapsMatcherBackend, quiescent bool) SyncRange {
+//
+// selfCut reports the reporting site of a later cut-off mismatch: the SyncRange was produced while the head
+// was not indexed and its IndexedBlocks contains indexedRange.blocks.Last() of that very state, i.e. the block
+// at whose start GetBlockLvPointer ends every search made on that state. (On the unchanged tree synced() trims
+// that block, so selfCut is never true there.)
+func (s *c40Sys) sync(mb *FilterMapsMatcherBackend, quiescent bool) (sr SyncRange, selfCut bool) {
 	if quiescent {
-		sr, err := mb.SyncLogIndex(context.Background())
-		if err != nil {
+		var err error
+		if sr, err = mb.SyncLogIndex(context.Background()); err != nil {
 			panic(err)
 		}
-		return sr
+	} else {
+		ch := make(chan SyncRange, 1)
+		s.fm.matchersLock.Lock()
+		mb.syncCh = ch
+		s.fm.matchersLock.Unlock()
+		mb.synced()
+		sr = <-ch
 	}
-	ch := make(chan SyncRange, 1)
-	s.fm.matchersLock.Lock()
-	mb.syncCh = ch
-	s.fm.matchersLock.Unlock()
-	mb.synced()
-	return <-ch
+	rng := s.fm.indexedRange // unchanged since the request was served: the indexer is parked / we are the indexer
+	selfCut = rng.initialized && !rng.headIndexed && !rng.blocks.IsEmpty() && sr.IndexedBlocks.Includes(rng.blocks.Last())
+	return sr, selfCut
 }
 
-func (s *c40Sys) validate(pts []c40Point, sr SyncRange, sess string) {
+func (s *c40Sys) validate(pts []c40Point, sr SyncRange, sess string, selfCut bool) {
 	vb := sr.ValidBlocks
 	ivp, ivok := c40PathOf(sr.IndexedView)
 	for _, pt := range pts {
-		key := fmt.Sprintf("%x|%d|%d|%v|%s", pt.fp, vb.First(), vb.Count(), ivok, ivp)
+		key := fmt.Sprintf("%x|%d|%d|%v|%s|%v", pt.fp, vb.First(), vb.Count(), ivok, ivp, selfCut)
 		v, _ := s.cfg.verdicts.LoadOrStore(key, &c40Verdict{})
 		vd := v.(*c40Verdict)
-		vd.once.Do(func() { vd.err = s.cfg.check(pt.e, vb, ivp, ivok) })
+		vd.once.Do(func() { vd.err = s.cfg.check(pt.e, vb, ivp, ivok, selfCut) })
 		if vd.err != nil {
 			err := fmt.Errorf("session %s closed at %s [sync: valid=[%d,%d) indexed=[%d,%d) view=%q], query executed at %s on state {%s}: %v",
 				sess, s.stateStr(), vb.First(), vb.AfterLast(), sr.IndexedBlocks.First(), sr.IndexedBlocks.AfterLast(), ivp, pt.label, pt.e.state, vd.err)
@@ -986,10 +1000,22 @@ func (s *c40Sys) validate(pts []c40Point, sr SyncRange, sess string) {
 	}
 }
 
-// c40KnownCutOff: while the head is not indexed, FilterMapsMatcherBackend.GetBlockLvPointer maps every block
-// number >= indexedRange.blocks.AfterLast() to the pointer of blocks.Last() (the last FULLY indexed block), so the
-// search stops before that block; updateMatchersValidRange however keeps blocks.Last() inside ValidBlocks.
-const c40KnownCutOff = "C40:last-fully-indexed-block-cut-off-but-reported-valid"
+// Cut-off mismatches: while the head is not indexed, FilterMapsMatcherBackend.GetBlockLvPointer maps every block
+// number >= indexedRange.blocks.AfterLast() to the pointer of blocks.Last() (the last FULLY indexed block), so every
+// search made on such a state stops before that block. The key names the site that nevertheless reported the block:
+//
+// c40KnownCutOff (defect of the unchanged tree, registered in known_findings.json): no sync of the session reported
+// the block from a state on which it was the cut-off block; it was reported indexed by an EARLIER sync (head indexed,
+// or a longer range) and updateMatchersValidRange kept it in ValidBlocks across the temporary / shortened range
+// (it intersects with the whole indexedRange.blocks, synced() trims blocks.Last()).
+//
+// c40CutOffSynced (not registered): a SyncRange produced by synced() while the head was not indexed contains the
+// cut-off block of its own state, so any session started or finished there claims a block no search can reach.
+const (
+	c40CutOffBase   = "C40:last-fully-indexed-block-cut-off-but-reported-valid"
+	c40KnownCutOff  = c40CutOffBase + ":valid-range-kept-by-updateMatchersValidRange"
+	c40CutOffSynced = c40CutOffBase + ":range-reported-by-synced"
+)
 
 // c40KnownFirst: mapRenderer.getUpdatedRange/getTempRange call blocks.SetFirst(lastBlockOfMap(first-1)+1) and then
 // blocks.SetAfterLast(lastBlock of the last written map); when a head render that restarted at a tail map boundary writes
@@ -1003,7 +1029,7 @@ func (k *c40Known) Error() string { return strings.Join(k.msgs, " ;; ") }
 
 // check compares, for every query, what the user would be given for the claimed-valid part of the range
 // with the direct scan of the indexed view's receipts.
-func (cfg *c40Cfg) check(e *c40Eval, vb common.Range[uint64], ivp string, ivok bool) error {
+func (cfg *c40Cfg) check(e *c40Eval, vb common.Range[uint64], ivp string, ivok bool, selfCut bool) error {
 	r := cfg.r
 	if vb.IsEmpty() {
 		r.Outcome("session:claims-nothing")
@@ -1090,8 +1116,11 @@ func (cfg *c40Cfg) check(e *c40Eval, vb common.Range[uint64], ivp string, ivok b
 	}
 	if cutoff > 0 || nFirst > 0 {
 		kn := &c40Known{}
-		if cutoff > 0 {
-			r.OutcomeN("queries:KNOWN last-indexed-block cut off while reported valid", cutoff)
+		if cutoff > 0 && selfCut {
+			r.OutcomeN("queries:last-indexed-block cut off although reported by synced() itself", cutoff)
+			kn.keys, kn.msgs = append(kn.keys, c40CutOffSynced), append(kn.msgs, cutoffExample)
+		} else if cutoff > 0 {
+			r.OutcomeN("queries:KNOWN last-indexed-block cut off while kept valid by updateMatchersValidRange", cutoff)
 			kn.keys, kn.msgs = append(kn.keys, c40KnownCutOff), append(kn.msgs, cutoffExample)
 		}
 		if nFirst > 0 {
